@@ -713,7 +713,7 @@ def gen_hist_pairs(thorough):
                         pool = [dp, {'timeout': 7}, {'raise_mode': mode, 'ignore_errors': HUSER[2 + n % (len(HUSER) - 2)]}, {'capabilities': ['urn:x:cap:1.0']}]
                         sh = dict(dp=0, mp=1, ep=2, np=3)
                         steps = [dict(route=r1, fail=refused, timeout=None, **sh), dict(route=r2, fail=False, timeout=(5 if n % 4 == 0 else None), **sh),
-                                 dict(route='direct', dp=0, mp=1, ep=None, np=None, fail=False, timeout=None)]
+                                 dict(route='direct', dp=0, mp=1, ep=None, np=None, fail=False, timeout=None, **({'over': 1} if n % 2 else {}))]
                         c = dict(history=True, classes=classes, pool=pool, steps=steps, order=n % 2, op='lock')
                         c['probes'] = hist_probes(c)
                         cases.append(c)
@@ -749,6 +749,8 @@ def gen_hist_random(rng, n, profiles):
             st = dict(route=rng.choice(connhist.ROUTES), timeout=rng.choice([None, None, 3, 11]), fail=rng.random() < 0.25)
             for kd in connhist.KINDS:
                 st[kd] = rng.choice(idx[kd]) if idx[kd] and rng.random() < (0.9 if kd in ('dp', 'ep') else 0.7) else None
+            if st['route'] == 'direct' and steps and rng.random() < 0.5:
+                st['over'] = rng.randrange(len(steps))          # a second Manager, with its own handler, over an earlier manager's session
             steps.append(st)
         c = dict(history=True, classes=classes, pool=pool, steps=steps, order=rng.randrange(2), op=rng.choice(['lock', 'lock', 'get_config', 'discard']))
         c['probes'] = hist_probes(c, rng)
